@@ -480,6 +480,14 @@ Definition result_line (r : tx_result) : bytes :=
   | RMsgPanic => b "R panic"
   end.
 
+(** the SDK keeps and prints coins sorted by denomination: presentation order of a coin list *)
+Fixpoint insert_coin (c : bytes * N) (l : coins) : coins :=
+  match l with
+  | [] => [c]
+  | h :: t => if bytes_ltb (fst c) (fst h) then c :: h :: t else h :: insert_coin c t
+  end.
+Definition sort_coins (l : coins) : coins := fold_right insert_coin [] l.
+
 Definition coins_tok (cs : coins) : bytes :=
   match cs with
   | [] => b "-"
@@ -781,7 +789,7 @@ Definition chain_cmd (st : dstate) (cmd : tok) (args : list tok) : option (dstat
     let c := d_chain st in
     let c' := end_block (env_of st) c in
     Some (upd_versions (upd_chain st c') (d_versions st ++ [c']) (d_base st),
-          [join_toks (b "B" :: coins_tok (spendable_coins (c_bank c) (d_now st) Generated.GenApp.burn_address)
+          [join_toks (b "B" :: coins_tok (sort_coins (spendable_coins (c_bank c) (d_now st) Generated.GenApp.burn_address))
                         :: map (fun d => print_z (Z.of_N (supply_of (c_bank c') d) - Z.of_N (supply_of (c_bank c) d))) (d_denoms st))])
   else if tok_is cmd "G" then
     (* genesis map entries: G aol.<kind> <key string> <fields> *)
